@@ -38,6 +38,9 @@ type c20Case struct {
 	Via  string   `json:"via"` // "basic": addNodeBasicSorted/removeNodeBasicSorted; "node": addNode/removeNode (topology)
 	Help int      `json:"help"` // 0: no helper event; k: helpers on index k
 	Full bool     `json:"full,omitempty"` // a variant that logs its whole partition table
+	Hist bool     `json:"hist,omitempty"` // from a TLC-generated history (spec/PlacementHist.tla)
+	// Want, when set, is the member set the specification's history has at this point
+	Want []string `json:"want,omitempty"`
 	// Prev, when set, is the canonical configuration logged just before this one (same id
 	// set and replica count): the replay logs it first so that TLC compares the two.
 	Prev *c20Case `json:"prev,omitempty"`
@@ -144,6 +147,8 @@ func (env *c20Env) build(c *c20Case, dir string) (*pilosa.VerifCluster, error) {
 	v := pilosa.VerifClusterNew(o)
 	for k, id := range c.Ord {
 		switch {
+		case c.Opk[k] == 2:
+			env.observe(v)
 		case c.Via == "node" && c.Opk[k] == 1:
 			if err := v.Join(env.node(id)); err != nil {
 				return nil, err
@@ -160,6 +165,102 @@ func (env *c20Env) build(c *c20Case, dir string) (*pilosa.VerifCluster, error) {
 	}
 	v.SetSelf(c.Self)
 	return v, nil
+}
+
+// observe makes the cluster compute owners the way requests do (an "obs" step of a
+// history): every partition, and the per-shard helpers on a few shards. The answers are
+// dropped; what matters is that computing them must not change later answers.
+func (env *c20Env) observe(v *pilosa.VerifCluster) {
+	for p := 0; p < c20PartN; p++ {
+		v.PartitionNodes(p)
+	}
+	ix := env.Indexes[0]
+	shards := env.Shards[ix][:8]
+	for _, s := range shards {
+		v.ShardNodes(ix, s)
+	}
+	for _, id := range v.NodeIDs() {
+		v.OwnsShard(id, ix, shards[0])
+		v.ContainsShards(ix, shards, id)
+	}
+}
+
+// histGroups turns TLC-generated membership histories (spec/PlacementHist.tla) into
+// cases: every "obs" step and the end of every history is an observation point; the case of
+// an observation point is the history prefix up to it (earlier obs steps included, they are
+// replayed as owner computations). Cases are grouped by (resulting id set, replicas) behind
+// the canonical case, a cluster built afresh from exactly that id set. It also replays each
+// history once comparing the member set after every step with the specification's.
+func (env *c20Env) histGroups(behs []behav.Behaviour, res *behav.Result, emit func(group []*c20Case)) {
+	type grp struct {
+		canon *c20Case
+		cases []*c20Case
+	}
+	groups := map[string]*grp{}
+	var order []string
+	seen := map[string]bool{}
+	for bi, b := range behs {
+		if len(b) == 0 {
+			continue
+		}
+		rng := rand.New(rand.NewSource(env.Seed*6700417 + int64(bi)))
+		perm := rng.Perm(len(env.Universe))
+		id := func(k int) string { return env.Universe[perm[k-1]] }
+		r := b[0].Int("r")
+		via := "basic"
+		if bi%3 == 0 {
+			via = "node"
+		}
+		var ord []string
+		var opk []int
+		for si, st := range b {
+			switch st.Str("op") {
+			case "join":
+				ord, opk = append(ord, id(st.Int("k"))), append(opk, 1)
+			case "leave":
+				ord, opk = append(ord, id(st.Int("k"))), append(opk, 0)
+			case "obs":
+				ord, opk = append(ord, ""), append(opk, 2)
+			}
+			var want []string
+			for _, k := range st.Ints("m") {
+				want = append(want, id(k))
+			}
+			sort.Strings(want)
+			// observation points: right after an obs step's predecessor state, i.e. the
+			// prefix before the obs (the obs itself is the recording), and the end
+			isObs := st.Str("op") == "obs"
+			if !isObs && si != len(b)-1 {
+				continue
+			}
+			pord, popk := ord, opk
+			if isObs { // the recording replaces the obs step
+				pord, popk = ord[:len(ord)-1], opk[:len(opk)-1]
+			}
+			key := fmt.Sprint(pord, popk, r, via)
+			if seen[key] || len(want) == 0 {
+				continue
+			}
+			seen[key] = true
+			gk := fmt.Sprint(want, r)
+			g := groups[gk]
+			if g == nil {
+				g = &grp{canon: &c20Case{Seed: env.Seed, Ord: want, Opk: ones(len(want)), R: r, Self: want[0], Via: "basic", Hist: true}}
+				groups[gk] = g
+				order = append(order, gk)
+			}
+			help := 0
+			if si == len(b)-1 && bi%4 == 0 {
+				help = 1 + bi%len(env.Indexes)
+			}
+			g.cases = append(g.cases, &c20Case{Seed: env.Seed, Ord: append([]string(nil), pord...), Opk: append([]int(nil), popk...),
+				R: r, Self: want[(si+bi)%len(want)], Via: via, Help: help, Prev: g.canon, Hist: true, Want: want})
+		}
+	}
+	for _, gk := range order {
+		g := groups[gk]
+		emit(append([]*c20Case{g.canon}, g.cases...))
+	}
 }
 
 // c20Answers is what all ownership helpers answered for one shard (or for all shards of
@@ -186,6 +287,13 @@ func (env *c20Env) events(c *c20Case, cn int, dir string) ([]interface{}, error)
 		return nil, err
 	}
 	ring := v.NodeIDs()
+	if c.Want != nil {
+		got := append([]string(nil), ring...)
+		sort.Strings(got)
+		if fmt.Sprint(got) != fmt.Sprint(c.Want) {
+			return nil, fmt.Errorf("after the history %v/%v the cluster's members are %v, the specification's %v", c.Ord, c.Opk, ring, c.Want)
+		}
+	}
 	g := groupBy(c20PartN, 0, func(p int) []string { return v.PartitionNodes(p) }, false)
 	own := map[string]interface{}{"ev": "own", "c": cn, "ord": c.Ord, "opk": c.Opk, "ring": ring, "r": c.R, "self": c.Self,
 		"gd": digest(g)}
@@ -373,6 +481,36 @@ func (env *c20Env) c20Cases(thorough bool, emit func(group []*c20Case)) {
 				}
 			}
 			if r == (rPerm+1)%10 {
+				// histories that END with a leave (nothing re-sorts afterwards) and compute
+				// owners on the way: M and outsiders join, obs, the outsiders leave
+				var outsiders []string
+				for _, id := range env.Universe {
+					if !contains(M, id) {
+						outsiders = append(outsiders, id)
+					}
+				}
+				for t := 0; t < 3 && len(outsiders) > 0; t++ {
+					xs := []string{outsiders[rng.Intn(len(outsiders))]}
+					if t == 2 && len(outsiders) > 1 {
+						xs = outsiders[:2]
+					}
+					ord := append(append([]string(nil), M...), xs...)
+					rng.Shuffle(len(ord), func(a, b int) { ord[a], ord[b] = ord[b], ord[a] })
+					opk := ones(len(ord))
+					if t > 0 { // compute owners while only the first node is there, and with everybody
+						ord = append([]string{ord[0], ""}, ord[1:]...)
+						opk = append([]int{1, 2}, opk[1:]...)
+						ord, opk = append(ord, ""), append(opk, 2)
+					}
+					for _, x := range xs {
+						ord, opk = append(ord, x), append(opk, 0)
+					}
+					via := "basic"
+					if t == 1 {
+						via = "node"
+					}
+					variant(ord, opk, M[rng.Intn(n)], via, 1+t%len(env.Indexes))
+				}
 				// histories with leaves and re-joins reaching the same id set
 				for t := 0; t < 4; t++ {
 					ord := append([]string(nil), M...)
@@ -514,7 +652,7 @@ func TestC20(t *testing.T) {
 	corrupted := false
 	ngroups := 0
 	maxGroups := behav.EnvInt("VERIF_MAXGROUPS", 1<<30)
-	env.c20Cases(behav.Thorough(), func(group []*c20Case) {
+	emitGroup := func(group []*c20Case) {
 		if ngroups >= maxGroups {
 			return
 		}
@@ -554,8 +692,17 @@ func TestC20(t *testing.T) {
 			if cn%997 == 0 {
 				res.AddSample(c)
 			}
+			if c.Hist {
+				res.Cover("history_observation")
+			}
 		}
-	})
+	}
+	// membership histories generated by TLC from spec/PlacementHist.tla
+	if os.Getenv("VERIF_BEH") != "" && corrupt == "" {
+		env.histGroups(behav.LoadEnv(), res, emitGroup)
+		tw.NewChunk()
+	}
+	env.c20Cases(behav.Thorough(), emitGroup)
 	res.Coverage["trace_files"] = tw.files
 	res.Coverage["cases"] = tw.ncases
 	res.Coverage["universe"] = env.Universe
